@@ -109,8 +109,8 @@ def par_payload(par):
 # ---------------------------------------------------------------------------------------
 # grids and spectra
 # ---------------------------------------------------------------------------------------
-def gen_grid(rng, uniform_dirs=False, nd_choices=(16, 24, 36), small=False, nf_range=(10, 26)):
-    nd = rng.choice(nd_choices)
+def gen_grid(rng, uniform_dirs=False, nd_choices=(16, 24, 36), small=False, nf_range=(10, 26), shape=None):
+    nd = rng.choice(nd_choices) if shape is None else shape[1]
     kind = "uniform" if uniform_dirs else rng.choice(["uniform", "uniform", "uniform", "offset", "jitter"])
     step = 360.0 / nd
     if kind == "uniform":
@@ -123,6 +123,8 @@ def gen_grid(rng, uniform_dirs=False, nd_choices=(16, 24, 36), small=False, nf_r
         d[0] = abs(d[0])
     fk = rng.choice(["linear", "geometric", "geometric", "ties"])
     nf = rng.randint(3, 9) if small else rng.randint(*nf_range)
+    if shape is not None:
+        nf = shape[0]
     f0 = rng.choice([0.03, 0.035, 0.04, 0.05])
     if fk == "ties":
         # frequencies that are exact halves of other frequencies: the cumulative ST4 term compares
@@ -338,6 +340,18 @@ def make_batches(rng, nbatch, uniform_dirs=False, nd_choices=(16, 24, 36)):
         npt = rng.choice([1, 1, 2, 3, 4, 8]) if not small else rng.choice([1, 2, 5])
         nondefault = rng.random() < 0.5
         gp, s4, s6, ro = gen_params(rng, nondefault)
+        if batches and (b == 1 or rng.random() < 0.3):
+            # a twin of the preceding batch: the SAME parameter sets (hence, in the runner, the same
+            # source-term objects) on a DIFFERENT grid of the SAME shape - an object must not carry
+            # anything over from the spectrum it was evaluated on before
+            prev = batches[-1]
+            for _ in range(20):
+                grid = gen_grid(rng, uniform_dirs=uniform_dirs, nd_choices=nd_choices, small=prev["small"],
+                                shape=(len(prev["grid"]["f"]), len(prev["grid"]["dir"])))
+                if grid["f"] != prev["grid"]["f"]:
+                    break
+            small, nondefault = prev["small"], prev["nondefault"]
+            gp, s4, s6, ro = dict(prev["gp"]), dict(prev["s4"]), dict(prev["s6"]), dict(prev["ro"])
         pts = [gen_point(rng, grid, windkind) for _ in range(npt)]
         batches.append({"grid": grid, "windkind": windkind, "pts": pts, "gp": gp, "s4": s4, "s6": s6, "ro": ro,
                         "nondefault": nondefault, "small": small})
